@@ -125,7 +125,7 @@ var deniedPkgs = map[string]bool{"reflect": true, "internal/reflectlite": true, 
 	"unsafe": true, "fmt": true, "log": true, "net": true, "net/http": true, "encoding/json": true, "crypto/aes": true,
 	"crypto/cipher": true, "crypto/sha256": true, "crypto/sha512": true, "crypto/hmac": true, "crypto/rand": true,
 	"crypto/rsa": true, "crypto/ecdsa": true, "crypto/ed25519": true, "crypto/x509": true, "encoding/pem": true,
-	"encoding/base64": true, "math/big": true, "internal/poll": true, "time": true, "sync": true, "sync/atomic": true,
+	"math/big": true, "internal/poll": true, "time": true, "sync": true, "sync/atomic": true,
 	"internal/bytealg": true, "crypto/elliptic": true, "crypto/ecdh": true, "crypto/internal/boring": true,
 	"golang.org/x/crypto/hkdf": true, "golang.org/x/crypto/chacha20poly1305": true, "crypto/subtle": false}
 
